@@ -27,8 +27,8 @@ PLANS = {
                 thorough=[("SearchTrace", "sweep", ["-k", "600"], 12, 30000), ("SearchTrace", "ucigo", [], 4, 1500)]),
     "C07": dict(quick=[("SearchTrace", "pv", ["-depth", "8"], 13, 1300), ("SearchTrace", "sweep", ["-k", "40"], 3, 1500)],
                 thorough=[("SearchTrace", "pv", ["-depth", "9"], 13, 14000), ("SearchTrace", "sweep", ["-k", "200"], 3, 15000)]),
-    "C08": dict(quick=[("ReproTrace", "games", ["-plies", "20"], 12, 700), ("SearchTrace", "sweep", ["-k", "120"], 4, 2000)],
-                thorough=[("ReproTrace", "games", ["-plies", "60"], 12, 8000), ("SearchTrace", "sweep", ["-k", "1500"], 4, 25000)]),
+    "C08": dict(quick=[("ReproTrace", "games", ["-plies", "20"], 11, 700), ("SearchTrace", "sweep", ["-k", "120"], 3, 2000), ("SearchTrace", "limits", [], 2, 1500)],
+                thorough=[("ReproTrace", "games", ["-plies", "60"], 11, 8000), ("SearchTrace", "sweep", ["-k", "1500"], 3, 25000), ("SearchTrace", "limits", [], 2, 20000)]),
 }
 
 
